@@ -605,14 +605,16 @@ fn access_matches() -> ArgMatches {
         .arg(Arg::new("s").long("s").action(ArgAction::Append))
         .arg(Arg::new("n").long("n").value_parser(clap::value_parser!(u8)))
         .arg(Arg::new("absent").long("absent"))
+        // present on the line, but without a value: its declared type is still u8
+        .arg(Arg::new("e").long("e").num_args(0..=1).value_parser(clap::value_parser!(u8)))
         .group(ArgGroup::new("g").arg("s"))
-        .try_get_matches_from(["prog", "--s", "a", "--n", "7", "--s", "b"])
+        .try_get_matches_from(["prog", "--s", "a", "--n", "7", "--s", "b", "--e"])
         .unwrap()
 }
 
 fn dump(m: &ArgMatches) -> String {
     let mut s = String::new();
-    for id in ["s", "n", "absent", "g"] {
+    for id in ["s", "n", "absent", "g", "e"] {
         let raw: Vec<Vec<String>> = m
             .try_get_raw_occurrences(id)
             .ok()
@@ -624,7 +626,7 @@ fn dump(m: &ArgMatches) -> String {
         let idx: Vec<usize> = if present { m.indices_of(id).map(|i| i.collect()).unwrap_or_default() } else { vec![] };
         let typed = match id {
             "s" => format!("{:?}", m.try_get_many::<String>(id).ok().flatten().map(|v| v.cloned().collect::<Vec<_>>())),
-            "n" => format!("{:?}", m.try_get_one::<u8>(id).ok().flatten()),
+            "n" | "e" => format!("{:?}", m.try_get_one::<u8>(id).ok().flatten()),
             "g" => format!("{:?}", m.try_get_many::<clap::Id>(id).ok().flatten().map(|v| v.map(|i| i.to_string()).collect::<Vec<_>>())),
             _ => format!("{:?}", m.try_get_one::<String>(id).ok().flatten()),
         };
@@ -642,7 +644,7 @@ struct AOp {
 
 fn access_ops() -> Vec<AOp> {
     let mut v = vec![];
-    for id in ["s", "n", "absent", "g", "zz"] {
+    for id in ["s", "n", "absent", "g", "e", "zz"] {
         for op in ["get_one", "get_many", "get_occurrences", "remove_one", "remove_many", "remove_occurrences"] {
             for ty in ["String", "u8", "Id"] {
                 v.push(AOp { op, id, ty });
@@ -738,6 +740,7 @@ struct AModel {
     s: bool,
     n: bool,
     g: bool,
+    e: bool,
 }
 
 fn model_access(md: &mut AModel, o: &AOp) -> AOut {
@@ -746,12 +749,14 @@ fn model_access(md: &mut AModel, o: &AOp) -> AOut {
         "n" => (md.n, "u8", vec!["7".into()]),
         "g" => (md.g, "Id", vec!["\"s\"".into(), "\"s\"".into()]),
         "absent" => (false, "String", vec![]),
+        "e" => (md.e, "u8", vec![]),
         _ => return AOut::Unknown,
     };
     let remove = |md: &mut AModel| match o.id {
         "s" => md.s = false,
         "n" => md.n = false,
         "g" => md.g = false,
+        "e" => md.e = false,
         _ => {}
     };
     match o.op {
@@ -760,6 +765,7 @@ fn model_access(md: &mut AModel, o: &AOp) -> AOut {
                 AOut::Vals(match o.id {
                     "s" => vec!["\"a\"".into(), "\"b\"".into()],
                     "n" => vec!["\"7\"".into()],
+                    "e" => vec![],
                     _ => vec!["\"s\"".into(), "\"s\"".into()],
                 })
             } else {
@@ -781,11 +787,17 @@ fn model_access(md: &mut AModel, o: &AOp) -> AOut {
                 return AOut::Downcast;
             }
             let all = vals.clone();
-            let out = if op.ends_with("_one") { vec![all[0].clone()] } else { all };
             if op.starts_with("remove") {
                 remove(md);
             }
-            AOut::Vals(out)
+            if op.ends_with("_one") {
+                // a present argument without values has no first value
+                return match all.first() {
+                    Some(v) => AOut::Vals(vec![v.clone()]),
+                    None => AOut::None,
+                };
+            }
+            AOut::Vals(all)
         }
     }
 }
@@ -795,7 +807,7 @@ fn access_search() -> (u64, u64, Vec<(String, String, Vec<String>)>) {
     let viol: std::cell::RefCell<Vec<(String, String, usize, String)>> = Default::default();
     let cur: std::cell::Cell<usize> = Default::default();
     let b = Bfs::run(
-        vec![(access_matches(), AModel { s: true, n: true, g: true })],
+        vec![(access_matches(), AModel { s: true, n: true, g: true, e: true })],
         |(m, md): &(ArgMatches, AModel)| (dump(m), md.clone()),
         |(m, md), _d| {
             let me = cur.get();
@@ -819,7 +831,16 @@ fn access_search() -> (u64, u64, Vec<(String, String, Vec<String>)>) {
                 }
                 let after = dump(&m2);
                 let failed = matches!(got, AOut::Unknown | AOut::Downcast);
-                let removing = (o.op.starts_with("remove") || o.op == "clear_id") && !failed && !matches!(got, AOut::None | AOut::Bool(false));
+                // a successful remove/clear of an id that is present takes it away (also when it
+                // holds no value and the call therefore answers None)
+                let was_present = match o.id {
+                    "s" => md.s,
+                    "n" => md.n,
+                    "g" => md.g,
+                    "e" => md.e,
+                    _ => false,
+                };
+                let removing = (o.op.starts_with("remove") || o.op == "clear_id") && !failed && was_present;
                 if !removing && after != before {
                     viol.borrow_mut().push((
                         if failed { "a failed typed access disturbed the stored values".to_string() } else { "a read-only access changed the stored values".to_string() },
